@@ -1,7 +1,9 @@
 """C07  Safe ML environment mediates every global, including in nested unpicklings."""
 import io
+import os
 import struct
 
+from vlib import env
 from vlib.runner import Failure, ShardResult, hypothesis_search
 from vlib.sandbox import Monitor, reset_pickle_bindings
 
@@ -22,7 +24,10 @@ RULE = (
     "any global anywhere in the nest is outside that set the call raises UnsafeFileError and the "
     "sink log is empty; otherwise the outcome (value or exception type) equals that of the same "
     "call with the hooks removed. Non-trivial = nesting depth >= 1 or non-empty additions; "
-    "distinct = distinct (bytes, entry point, additions)."
+    "Each case is also run with the safety check layered on top of the active environment "
+    "(always_check_safety() / a check_safety() with-block) and with the file entry points given a "
+    "BytesIO, a file opened by path or a file opened from a descriptor (.name is an int); "
+    "distinct = distinct (bytes, entry point, additions, layer, stream)."
 )
 ASSUMPTIONS = [
     "open known finding KF-C07-1: legacy / zip torch containers reached through "
@@ -181,25 +186,42 @@ def base_allowlist():
     return _BASE["s"]
 
 
-def call_entry(entry, data):
+LAYERS = ("none", "arm", "context")  # fickling's other guard layered on top of the environment
+STREAMS = ("bytesio", "named_file", "fd_file")  # what the file entry points are handed
+
+
+def _open_stream(data, stream):
+    if stream == "bytesio":
+        return io.BytesIO(data)
+    os.makedirs(env.SCRATCH, exist_ok=True)
+    path = os.path.join(env.SCRATCH, f"c07-{os.getpid()}.bin")
+    with open(path, "wb") as f:
+        f.write(data)
+    if stream == "named_file":
+        return open(path, "rb")
+    return open(os.open(path, os.O_RDONLY), "rb")  # .name is the descriptor, an int
+
+
+def call_entry(entry, data, stream="bytesio"):
     import _pickle
     import pickle
 
-    if entry == "pickle.load":
-        return pickle.load(io.BytesIO(data))
     if entry == "pickle.loads":
         return pickle.loads(data)
-    if entry == "_pickle.load":
-        return _pickle.load(io.BytesIO(data))
-    return _pickle.loads(data)
+    if entry == "_pickle.loads":
+        return _pickle.loads(data)
+    with _open_stream(data, stream) as fh:
+        if entry == "pickle.load":
+            return pickle.load(fh)
+        return _pickle.load(fh)
 
 
-def outcome_of(entry, data):
+def outcome_of(entry, data, stream="bytesio"):
     import verif_sink
 
     verif_sink.reset()
     try:
-        v = call_entry(entry, data)
+        v = call_entry(entry, data, stream)
         out = ("value", _norm(v))
     except RecursionError as e:
         out = ("raised", type(e).__name__)
@@ -223,13 +245,14 @@ def _norm(v):
     return (type(v).__name__, repr(v))
 
 
-def check(leaf_globs, loaders, entry, additions):
+def check(leaf_globs, loaders, entry, additions, layer="none", stream="bytesio"):
+    import fickling
     import fickling.hook as hook
 
     reset_pickle_bindings()
     data, names = build(leaf_globs, loaders)
     case = {"leaf": [list(g) for g in leaf_globs], "loaders": list(loaders), "entry": entry,
-            "additions": list(additions)}  # fmt: skip
+            "additions": list(additions), "layer": layer, "stream": stream}  # fmt: skip
     allowed = set(base_allowlist()) | {tuple(a.rsplit(".", 1)) for a in additions}
     foreign = sorted(names - allowed)
     stock = None
@@ -237,16 +260,28 @@ def check(leaf_globs, loaders, entry, additions):
         stock = outcome_of(entry, data)  # hooks removed: the stock behaviour
     mon = Monitor.get()
     hook.activate_safe_ml_environment(also_allow=list(additions) or None)
+    ctx = None
     try:
+        # the environment stays active (nobody deactivated it) when the safety check is armed on
+        # top of it, globally or for a with-block
+        if layer == "arm":
+            fickling.always_check_safety()
+        elif layer == "context":
+            ctx = fickling.check_safety()
+            ctx.__enter__()
         with mon.watch() as events:
-            got, log = outcome_of(entry, data)
+            got, log = outcome_of(entry, data, stream)
         resolved = [(e[1], e[2]) for e in events if e[0] == "pickle.find_class"]
     finally:
+        if ctx is not None:
+            ctx.__exit__(None, None, None)
         hook.remove_hook()
         reset_pickle_bindings()
 
     def fail(msg):
-        return Failure(case, f"{entry} of depth-{len(loaders)} payload via {list(loaders)} with additions {list(additions)}: {msg}")
+        extra = ("" if layer == "none" else f", safety check layered on top ({layer})") + (
+            "" if stream == "bytesio" or entry.endswith("loads") else f", stream={stream}")
+        return Failure(case, f"{entry} of depth-{len(loaders)} payload via {list(loaders)} with additions {list(additions)}{extra}: {msg}")
 
     bad = [r for r in resolved if r not in allowed]
     if bad:
@@ -257,6 +292,8 @@ def check(leaf_globs, loaders, entry, additions):
         if log and ("verif_sink", "sink") not in allowed:
             return fail(f"blocked load still ran the sink: {log!r}")
         return None
+    if layer != "none" and got == ("raised", "UnsafeFileError") and not log:
+        return None  # the layered safety check may object to a pickle the allowlist admits
     if got != stock[0] or log != stock[1]:
         return fail(f"all globals are allowed but the outcome {got} / sink {log!r} differs from the stock one {stock}")
     return None
@@ -298,7 +335,8 @@ def replay(case):
     base_allowlist()
     if case.get("kf") == "KF-C07-1":
         return kf_c07_1(case["container"])
-    return check([tuple(g) for g in case["leaf"]], case["loaders"], case["entry"], case["additions"])
+    return check([tuple(g) for g in case["leaf"]], case["loaders"], case["entry"], case["additions"],
+                 case.get("layer", "none"), case.get("stream", "bytesio"))
 
 
 def _case_strategy():
@@ -322,7 +360,7 @@ def _case_strategy():
                          "fractions.Fraction", "verif_sink.sink", "pickle.loads", "_pickle.loads"]),
         max_size=4, unique=True,
     )  # fmt: skip
-    return st.tuples(leaf, loaders, st.booleans(), adds)
+    return st.tuples(leaf, loaders, st.booleans(), adds, st.sampled_from(LAYERS), st.sampled_from(STREAMS))
 
 
 def shards(tier):
@@ -340,7 +378,7 @@ def run_shard(spec, seed):
     res = ShardResult()
 
     def body(case):
-        leaf, loaders, permit, adds = case
+        leaf, loaders, permit, adds, layer, stream = case
         adds = list(adds)
         if permit:
             # make loader nests likely to be permitted: add what the loaders need
@@ -349,13 +387,14 @@ def run_shard(spec, seed):
                     if (m, n) not in base_allowlist() and f"{m}.{n}" not in adds:
                         adds.append(f"{m}.{n}")
         for entry in ENTRY:
-            f = check(leaf, loaders, entry, adds)
+            f = check(leaf, loaders, entry, adds, layer, stream)
             allowed = set(base_allowlist()) | {tuple(a.rsplit(".", 1)) for a in adds}
             _, names = build(leaf, loaders)
             res.note(
-                repr((leaf, loaders, entry, adds)),
+                repr((leaf, loaders, entry, adds, layer, stream)),
                 len(loaders) >= 1 or bool(adds),
-                klass=[f"depth{len(loaders)}", "foreign" if names - allowed else "all-allowed", entry],
+                klass=[f"depth{len(loaders)}", "foreign" if names - allowed else "all-allowed", entry,
+                       f"layer-{layer}", f"stream-{stream}"],
                 sample={"leaf": [f"{m}.{n}" for m, n, _ in leaf], "loaders": list(loaders), "entry": entry,
                         "additions": adds},
             )
